@@ -2,7 +2,12 @@
 
 package fstree
 
-import oid "github.com/nspcc-dev/neofs-sdk-go/object/id"
+import (
+	"path/filepath"
+
+	"github.com/nspcc-dev/neofs-node/pkg/util"
+	oid "github.com/nspcc-dev/neofs-sdk-go/object/id"
+)
 
 // VerifUseGenericWriter makes the tree write through the portable writer
 // (the one used when the O_TMPFILE writer is not available).
@@ -13,4 +18,21 @@ func (t *FSTree) VerifUseGenericWriter() {
 // VerifTreePath returns the file path of an address.
 func (t *FSTree) VerifTreePath(addr oid.Address) string {
 	return t.treePath(addr)
+}
+
+// VerifPutBatchOrdered is PutBatch with the objects handed to the writer in the
+// given order (PutBatch itself takes a map, whose order is random).
+func (t *FSTree) VerifPutBatchOrdered(addrs []oid.Address, data [][]byte) error {
+	units := make([]writeDataUnit, 0, len(addrs))
+	for i, addr := range addrs {
+		if len(data[i]) == 0 {
+			continue
+		}
+		p := t.treePath(addr)
+		if err := util.MkdirAllX(filepath.Dir(p), t.Permissions); err != nil {
+			return err
+		}
+		units = append(units, writeDataUnit{id: addr.Object(), path: p, data: data[i]})
+	}
+	return t.writer.writeBatch(units)
 }
